@@ -211,7 +211,10 @@ def run_merge(b, cfg, scripts, order, audit_every=50):
             mine = []
             for ln in out or []:
                 w = who(ln)
-                if w == cid:
+                if w is None and ln.startswith("X "):
+                    # a query whose tag names nobody: it was this client's line that caused it
+                    mine.append("UNROUTABLE " + ln)
+                elif w == cid:
                     mine.append(norm(cid, ln))
                 elif w in conv:
                     conv[w].append((-1, "during step of client %d (%s): %s" % (cid, proto.render(ev), norm(w, ln))))
@@ -262,6 +265,13 @@ def _worker(a):
     rng = random.Random(seed)
     cfg = proto.Config.from_json(cfgj)
     ids = rng.sample(IDPOOL, nclients)
+    if a.get("early_comeback") and a["seed"] % 2:
+        # the client that comes back has an id of five hex digits: with a serial of two digits its routing tag is 8 characters long
+        if 65536 in ids:
+            ids.remove(65536)
+            ids.insert(0, 65536)
+        else:
+            ids[0] = 65536
     if nclients >= 10:
         # an id of seven hex digits: its routing tag grows from 9 to 10 characters once the serial needs two digits
         for big in (134217727, 16777216):
